@@ -18,6 +18,12 @@ Engine E2.
     child (depth 2), restricted to the operators expr_range has a transfer function for (+ & | ^ * a>> << >> >>> <<<
     unary - %) plus Slice / Compose / Cond, and a small family of memory reads; x ALL valuations of the identifiers:
     refsem(e) must be a member of expr_range(e).
+(c) histories of queries: ordered pairs of a menu of ~70 representative queries (every operator and node kind, compose /
+    zeroExt / slice over identifier and memory leaves, widths 1-16) and triples widen x widen x width-sensitive, each
+    executed from a fresh module state (fresh_state(): interval, modularintervals and expression_range re-created from
+    source).  Oracle on the LAST query: same answer as when asked alone, over-approximation; earlier answers must not be
+    changed by later queries.  The bulk enumeration (b) starts every shard from a fresh state; a violation that does not
+    reproduce alone is re-found from the shard's earlier queries, shrunk greedily, and recorded with that history.
 """
 import itertools
 
@@ -547,32 +553,23 @@ def divisor_always_zero(e, ids, vals):
     return False
 
 
-def _judge_expr(e, stats=None):
-    from miasm.analysis.expression_range import expr_range
-    spec = to_spec(e)
-    case = {"k": "expr", "spec": spec}
+def _vals_for(e):
     ids = refsem.free_ids(e)
     vals = list(itertools.product(*[range(1 << i.size) if i.size <= 4 else refsem.boundary(i.size) for i in ids]))
-    try:
-        R = expr_range(e)
-    except Exception as ex:
-        if divisor_always_zero(e, ids, vals):
-            # x % 0 has no value: the analysis yields the empty set for it and the enclosing handlers reject empty operands
-            if stats is not None:
-                stats["undefined_modulo"] += 1
-            return []
-        return [violation("expr_range:raise:%s:%s" % (type(ex).__name__, expr_skeleton(e)), "expr_range(%s) raised %r" % (e, ex), case)]
+    return ids, vals
+
+
+def _judge_range(e, R, case, stats=None, tag="expr_range"):
+    """the over-approximation property for one expression and one answer R of the analysis"""
+    ids, vals = _vals_for(e)
     w = e.size
     if R.size != w:
-        return [violation("expr_range:result-size:%s" % expr_skeleton(e), "expr_range(%s) has size %r, expression has %d" % (e, R.size, w), case)]
+        return [violation("%s:result-size:%s" % (tag, expr_skeleton(e)), "expr_range(%s) has size %r, expression has %d" % (e, R.size, w), case)]
     fn = refsem.compile_expr(e, ids)
-    top = True
     ivs = list(R.intervals)
-    if ivs != [(0, (1 << w) - 1)]:
-        top = False
     if stats is not None:
         stats["evals"] += len(vals)
-        if not top:
+        if ivs != [(0, (1 << w) - 1)]:
             stats["nontrivial"] += 1
     seen = set()
     for v in vals:
@@ -587,9 +584,236 @@ def _judge_expr(e, stats=None):
         seen.add(c)
         if not any(lo <= c <= hi for lo, hi in ivs):
             env = ", ".join("%s=%d" % (i.name, x) for i, x in zip(ids, v))
-            return [violation("expr_range:misses-value:%s" % expr_skeleton(e),
+            return [violation("%s:misses-value:%s" % (tag, expr_skeleton(e)),
                               "expr_range(%s) = %s but the expression evaluates to %d for %s" % (e, R, c, env or "(no identifiers)"), case)]
     return []
+
+
+def _judge_expr(e, stats=None):
+    from miasm.analysis.expression_range import expr_range
+    case = {"k": "expr", "spec": to_spec(e)}
+    try:
+        R = expr_range(e)
+    except Exception as ex:
+        ids, vals = _vals_for(e)
+        if divisor_always_zero(e, ids, vals):
+            # x % 0 has no value: the analysis yields the empty set for it and the enclosing handlers reject empty operands
+            if stats is not None:
+                stats["undefined_modulo"] += 1
+            return []
+        return [violation("expr_range:raise:%s:%s" % (type(ex).__name__, expr_skeleton(e)), "expr_range(%s) raised %r" % (e, ex), case)]
+    try:
+        return _judge_range(e, R, case, stats)
+    except Exception as ex:   # an answer that is not even a well-formed ModularIntervals
+        return [violation("expr_range:malformed-answer:%s:%s" % (type(ex).__name__, expr_skeleton(e)), "expr_range(%s) = %r: %r" % (e, R, ex), case)]
+
+
+# ------------------------------------------------------------------ histories of queries
+
+FRESH_MODULES = ["miasm.core.interval", "miasm.analysis.modularintervals", "miasm.analysis.expression_range"]
+_code = {}
+
+
+def fresh_state():
+    """Fresh module state for the analysis: the three modules it is made of (interval, modularintervals, expression_range)
+    are re-created from their source (new module objects executed from the once-compiled code, installed in sys.modules
+    and in their parent packages), so every module global and class attribute - memo tables, caches, defaults - is new.
+    Expression nodes cannot carry state (__slots__, immutable).  Much cheaper than a fork per history (about 0.5 ms);
+    a recorded case is in any case confirmed by the runner in a really fresh process."""
+    import importlib
+    import importlib.util
+    import sys
+    for name in FRESH_MODULES:
+        if name not in _code:
+            importlib.import_module(name)
+            spec = sys.modules[name].__spec__
+            _code[name] = (compile(spec.loader.get_source(name), spec.origin, "exec"), spec)
+        code, spec = _code[name]
+        mod = importlib.util.module_from_spec(spec)
+        sys.modules[name] = mod
+        exec(code, mod.__dict__)
+        parent, _, child = name.rpartition(".")
+        setattr(sys.modules[parent], child, mod)
+
+
+def _snap(R):
+    return ("ok", R.size, tuple(R.intervals))
+
+
+def _ask(e):
+    """(answer object or None, snapshot)"""
+    from miasm.analysis.expression_range import expr_range
+    try:
+        R = expr_range(e)
+        return R, _snap(R)
+    except Exception as ex:
+        return None, ("raise", type(ex).__name__, str(ex)[:80])
+
+
+_alone = {}
+
+
+def alone_answer(e):
+    if e not in _alone:
+        fresh_state()
+        _alone[e] = _ask(e)[1]
+    return _alone[e]
+
+
+def kind_of(e):
+    if e.is_op():
+        op = e.op
+        return "zeroExt" if op.startswith("zeroExt_") else ("signExt" if op.startswith("signExt_") else "op")
+    for k in ("int", "id", "mem", "slice", "compose", "cond"):
+        if getattr(e, "is_" + k)():
+            return k
+    return type(e).__name__
+
+
+def check_history(specs, stats=None):
+    """specs: list of expression specs asked in this order from a fresh state.  Judged: the LAST answer
+    (same as when asked alone; over-approximation) and that earlier answers are not changed by later queries."""
+    exprs = [build(s) for s in specs]
+    case = {"k": "hist", "queries": list(specs)}
+    last = exprs[-1]
+    want = alone_answer(last)
+    fresh_state()
+    got = [_ask(e) for e in exprs]
+    after = "|after:" + ",".join(sorted(set(kind_of(e) for e in exprs[:-1])))
+    hist_txt = "; then ".join("expr_range(%s)" % e for e in exprs)
+    vs = []
+    R, snap = got[-1]
+    if snap != want:
+        if snap[0] == "raise":
+            kind = "raise:%s" % snap[1]
+        elif want[0] == "ok" and snap[1] != want[1]:
+            kind = "result-size"
+        else:
+            kind = "answer-differs-from-fresh-state"
+        vs.append(violation("expr_range[history]:%s:%s%s" % (kind, kind_of(last), after),
+                            "%s: the last answer is %r, asked alone in a fresh state it is %r" % (hist_txt, snap[1:], want[1:]), case))
+    if R is not None and not vs:
+        try:
+            vs += _judge_range(last, R, case, stats, tag="expr_range[history]")
+            for v in vs:
+                v["sig"] = ":".join(v["sig"].split(":")[:2]) + ":" + kind_of(last) + after
+        except Exception as ex:
+            vs.append(violation("expr_range[history]:malformed-answer:%s%s" % (kind_of(last), after), "%s: %r" % (hist_txt, ex), case))
+    for i, (Ri, si) in enumerate(got[:-1]):
+        if Ri is None:
+            continue
+        try:
+            now = _snap(Ri)
+        except Exception as ex:
+            now = ("broken", repr(ex))
+        if now != si:
+            vs.append(violation("expr_range[history]:earlier-answer-changed-by-later-query:%s|then:%s" % (
+                kind_of(exprs[i]), ",".join(sorted(set(kind_of(e) for e in exprs[i + 1:])))),
+                "%s: the answer to query %d was %r and became %r" % (hist_txt, i + 1, si[1:], now[1:]), case))
+    if stats is not None:
+        stats["outcomes"].add(snap)
+    return vs
+
+
+def _S(e):
+    return to_spec(e)
+
+
+def history_menu():
+    """representative queries: every node kind / operator, compose / zeroExt / slice with identifier and memory leaves"""
+    E = exprgen._E()
+    x2, y2, x3, y3 = E.ExprId("x2", 2), E.ExprId("y2", 2), E.ExprId("x3", 3), E.ExprId("y3", 3)
+    c1, p8 = E.ExprId("c1", 1), E.ExprId("p8", 8)
+    m8 = E.ExprMem(p8, 8)
+    one3 = E.ExprInt(1, 3)
+    menu = [x2, x3, c1, m8, E.ExprInt(5, 3), E.ExprOp("-", x2), E.ExprOp("-", x3), E.ExprOp("-", m8), E.ExprOp("-", c1)]
+    for op in ("+", "&", "|", "^", "*", "<<", ">>", "a>>", ">>>", "<<<"):
+        menu.append(E.ExprOp(op, x3, one3))
+        menu.append(E.ExprOp(op, x2, y2))
+    for op in ("+", ">>", "<<<"):
+        menu.append(E.ExprOp(op, m8, E.ExprInt(1, 8)))
+    menu.append(E.ExprOp("%", x3, E.ExprInt(3, 3)))
+    menu.append(E.ExprOp("+", x3, y3, one3))
+    menu += [x3[0:2], x3[1:3], m8[0:3], m8[5:8], E.ExprOp("+", x3, one3)[1:3]]
+    widen = [E.ExprCompose(x2, y2), E.ExprCompose(x2, c1), E.ExprCompose(c1, x2), E.ExprCompose(x3, m8), E.ExprCompose(m8, x3),
+             E.ExprCompose(x2, E.ExprInt(1, 1)), E.ExprCompose(x3[0:1], y2), E.ExprCompose(c1, c1, c1),
+             x2.zeroExtend(3), x2.zeroExtend(4), x3.zeroExtend(8), m8.zeroExtend(16), c1.zeroExtend(2), c1.zeroExtend(3), x2.signExtend(3)]
+    menu += widen
+    menu += [E.ExprCond(c1, x2, y2), E.ExprCond(c1, x3, one3), E.ExprCond(x3, m8, E.ExprOp("+", m8, E.ExprInt(1, 8))),
+             E.ExprOp("==", x3, y3), E.ExprOp("parity", m8)]
+    sensitive = [E.ExprOp("-", x2), E.ExprOp("-", x3), E.ExprOp("-", c1), E.ExprOp("-", m8), E.ExprOp("+", x3, one3), E.ExprOp("<<", x2, y2),
+                 E.ExprOp(">>>", x3, one3), E.ExprOp("a>>", x2, y2), x3[1:3], E.ExprCond(c1, x2, y2)]
+    return menu, widen, sensitive
+
+
+def history_plan(thorough):
+    """ordered pairs of the whole menu (including a query repeated), triples widen x widen x width-sensitive"""
+    menu, widen, sensitive = history_menu()
+    out = []
+    for a in menu:
+        for b in menu:
+            out.append((a, b))
+    for a in widen:
+        for b in (widen if thorough else widen[::2]):
+            for c in sensitive:
+                out.append((a, b, c))
+    if thorough:
+        for a in sensitive:
+            for b in widen:
+                for c in sensitive:
+                    out.append((a, b, c))
+    return out
+
+
+def shard_histories(args):
+    thorough, idx, nsh = args
+    plan_ = history_plan(thorough)
+    st = {"evals": 0, "nontrivial": 0, "undefined_vals": 0, "undefined_modulo": 0, "outcomes": set()}
+    vs = []
+    n = 0
+    for i in range(idx, len(plan_), nsh):
+        n += 1
+        vs += check_history([_S(e) for e in plan_[i]], st)
+    fresh_state()
+    h = plan_[idx] if idx < len(plan_) else None
+    return {"n": n, "nt": st["nontrivial"], "vs": _cap(vs), "raised_on_empty": 0, "pre": 0, "outcomes": len(st["outcomes"]),
+            "sample": {"history": [str(e) for e in plan_[len(plan_) // 2]]} if idx == 0 else None,
+            "evals": st["evals"], "undefined_vals": st["undefined_vals"], "undefined_modulo": 0}
+
+
+def shrink_history(earlier, e):
+    """Smallest (greedy) sub-list H of the shard's earlier queries such that fresh state + H + e still violates."""
+    def fails(H):
+        fresh_state()
+        for q in H:
+            _ask(q)
+        return bool(_judge_expr(e))
+    reps = []
+    seen = set()
+    for q in earlier:
+        key = (expr_skeleton(q), q.size)
+        if key not in seen:
+            seen.add(key)
+            reps.append(q)
+    if fails(reps):
+        H = reps
+    elif fails(earlier):
+        H = list(earlier)
+    else:
+        return None
+    chunk = max(1, len(H) // 2)
+    while True:
+        i = 0
+        while i < len(H):
+            cand = H[:i] + H[i + chunk:]
+            if fails(cand):
+                H = cand
+            else:
+                i += chunk
+        if chunk == 1:
+            break
+        chunk = max(1, chunk // 2)
+    return H
 
 
 def check_expr(e, stats=None):
@@ -693,6 +917,9 @@ def quick_conds(g, w, spec):
                 yield mk(ch)
 
 
+MAX_HISTORY_REPORTS = 3
+
+
 def shard_exprs(args):
     thorough, part = args
     part = tuple(part)
@@ -701,6 +928,9 @@ def shard_exprs(args):
     n = 0
     sample = None
     seen = set()
+    fresh_state()            # the shard is a history of its own: start it from a fresh module state
+    earlier = []
+    hist_reports = hist_dependent = 0
     j, J = (part[3], part[4]) if len(part) > 3 else (0, 1)
     for i, e in enumerate(expr_part(thorough, part)):
         if i % J != j:
@@ -712,11 +942,30 @@ def shard_exprs(args):
             continue
         n += 1
         nt0 = st["nontrivial"]
-        vs += check_expr(e, st)
+        r = _judge_expr(e, st)
+        if r:
+            # does it violate on its own (fresh state)?  then it is an ordinary case, attributed to its smallest failing part
+            fresh_state()
+            ra = check_expr(e)
+            if ra:
+                vs += ra
+            else:
+                hist_dependent += 1
+                if hist_reports < MAX_HISTORY_REPORTS:
+                    hist_reports += 1
+                    H = shrink_history(earlier, e)
+                    rh = check_history([to_spec(q) for q in H] + [to_spec(e)]) if H is not None else []
+                    vs += rh if rh else r      # (r alone would be flagged by the runner as not reproducing)
+            fresh_state()
+            earlier = []
+        else:
+            earlier.append(e)
         if sample is None and st["nontrivial"] > nt0 and part[0] == "spine" and n > 50:
             sample = {"expr": str(e)}
+    fresh_state()
     return {"n": n, "nt": st["nontrivial"], "vs": _cap(vs), "raised_on_empty": 0, "pre": 0, "outcomes": 0, "sample": sample,
-            "evals": st["evals"], "undefined_vals": st["undefined_vals"], "undefined_modulo": st["undefined_modulo"]}
+            "evals": st["evals"], "undefined_vals": st["undefined_vals"], "undefined_modulo": st["undefined_modulo"],
+            "history_dependent": hist_dependent}
 
 
 def _dispatch(args):
@@ -727,6 +976,8 @@ def _dispatch(args):
         return shard_intervals(args[1:])
     if kind == "unary":
         return shard_intervals_unary(args[1:])
+    if kind == "hist":
+        return shard_histories(args[1:])
     return shard_exprs(args[1:])
 
 
@@ -755,6 +1006,9 @@ def plan(thorough):
             for j in range(J):
                 shards.append(("exprs", thorough, ("spine", w, k, j, J)))
     shards.append(("exprs", thorough, ("mem",)))
+    nh = 16 if thorough else 4
+    for i in range(nh):
+        shards.append(("hist", thorough, i, nh))
     return shards, specs
 
 
@@ -774,7 +1028,7 @@ def run(ctx):
     ctx.add_violations(allv)
     by_kind = {}
     for sh, r in zip(shards, res):
-        key = sh[0] if sh[0] in ("subsets", "exprs") else "%s-w%d" % (sh[0], sh[1])
+        key = sh[0] if sh[0] in ("subsets", "exprs", "hist") else "%s-w%d" % (sh[0], sh[1])
         by_kind[key] = by_kind.get(key, 0) + r["n"]
     return {
         "evaluations": sum(r["n"] for r in res),
@@ -791,6 +1045,8 @@ def run(ctx):
         "expression_valuations": sum(r.get("evals", 0) for r in res),
         "undefined_valuations_skipped": sum(r.get("undefined_vals", 0) for r in res),
         "expressions_with_constant_zero_divisor_skipped": sum(r.get("undefined_modulo", 0) for r in res),
+        "query_histories": sum(r["n"] for sh, r in zip(shards, res) if sh[0] == "hist"),
+        "history_dependent_violations_in_bulk": sum(r.get("history_dependent", 0) for r in res),
         "raised_on_empty_operand": sum(r["raised_on_empty"] for r in res),
         "size_update_precondition_skipped": sum(r["pre"] for r in res),
         "distinct_outcomes": sum(r["outcomes"] for r in res),
@@ -807,4 +1063,6 @@ def replay(case):
         return check_un(case["w"], case["op"], case["a"], case.get("arg"))
     if k == "expr":
         return check_expr(build(tup(case["spec"])))
+    if k == "hist":
+        return check_history([tup(q) for q in case["queries"]])
     return []
